@@ -398,7 +398,6 @@ func (l *hsLab) do(e *wenv, st *simkit.Step) {
 		if sub != uint32(p2pcommon.StatusRequest) {
 			return frame
 		}
-		to := 1 - from
 		s := &types.Status{}
 		if err := proto.Decode(frame[hdrLen:], s); err != nil {
 			panic("verif: middlebox cannot decode the status written by the handshaker: " + err.Error())
@@ -423,9 +422,6 @@ func (l *hsLab) do(e *wenv, st *simkit.Step) {
 					}
 				}
 			}
-		}
-		if !seenRaw[to] {
-			seen[to], seenRaw[to] = s, true
 		}
 		if pipeFault == 2 && from == garbleDir && !garbled {
 			garbled = true
@@ -455,6 +451,14 @@ func (l *hsLab) do(e *wenv, st *simkit.Step) {
 		hB = l.handshaker(B, st.N, rw)
 		resB = runSide(hB, false)
 	})
+
+	// What each side received as the peer's status is read off the bytes that were really
+	// delivered to it, after every fault (mutation, garbage, cut) - never off a copy taken
+	// inside the middlebox: an injected bit flip may itself change a field of the status.
+	// A handshaker reads exactly one message: the first frame of its inbound stream.
+	for to := 0; to < 2; to++ {
+		seen[to], seenRaw[to] = firstStatus(d.got[to], e.real)
+	}
 
 	// ---- judge ----
 	x.Count(fmt.Sprintf("hs.v%d", st.N), 1)
@@ -559,6 +563,23 @@ func (l *hsLab) do(e *wenv, st *simkit.Step) {
 	if !resA.ok && !resB.ok && mm != mmNone {
 		x.Probe("mismatch-refused")
 	}
+}
+
+// firstStatus is the harness's own reading of an inbound byte stream: the first frame, if it
+// is complete, within the limit, a StatusRequest, and decodes.
+func firstStatus(b []byte, limit uint32) (*types.Status, bool) {
+	if len(b) < hdrLen {
+		return nil, false
+	}
+	l := binary.BigEndian.Uint32(b[4:8])
+	if l > limit || uint64(len(b)-hdrLen) < uint64(l) || binary.BigEndian.Uint32(b[0:4]) != uint32(p2pcommon.StatusRequest) {
+		return nil, false
+	}
+	s := &types.Status{}
+	if err := proto.Decode(b[hdrLen:hdrLen+int(l)], s); err != nil {
+		return nil, false
+	}
+	return s, true
 }
 
 func failSig(side string, v verdict, got bool) string {
